@@ -36,10 +36,15 @@ Section Sched.
         end
     end.
 
-  Definition P (u : wunit) (r : tres) : Prop := exists d, total d u = Some r.
-
   Definition heaps (rs : list tres) : heap := List.concat (map fst rs).
   Definition errs (rs : list tres) : list perr := List.concat (map snd rs).
+
+  (** [P u r]: the forest of units under [u] (u, the units it schedules, the units they schedule, ...)
+      is finite and fills / raises [r]. *)
+  Inductive P : wunit -> tres -> Prop :=
+  | P_intro : forall u rs,
+      Forall2 P (x_units (exec_unit Q S fuel u)) rs ->
+      P u (x_heap (exec_unit Q S fuel u) ++ heaps rs, x_errs (exec_unit Q S fuel u) ++ errs rs).
 
   Lemma totals_spec : forall f us h e,
     totals f us = Some (h, e) ->
@@ -56,16 +61,19 @@ Section Sched.
       + unfold errs; simpl. now rewrite He.
   Qed.
 
+  (** The depth-bounded computation [total] establishes [P] (used for concrete states). *)
+  Lemma total_P : forall d u r, total d u = Some r -> P u r.
+  Proof.
+    induction d as [|d IH]; intros u r H; [discriminate|]. simpl in H.
+    destruct (totals (total d) (x_units (exec_unit Q S fuel u))) as [[h e]|] eqn:E; [|discriminate].
+    destruct (totals_spec _ _ _ _ E) as [rs [HF [Hh He]]]. inversion H; subst.
+    constructor. clear -HF IH. induction HF; constructor; auto.
+  Qed.
+
   Lemma P_unfold : forall u r, P u r ->
     exists rs, Forall2 P (x_units (exec_unit Q S fuel u)) rs /\
                r = (x_heap (exec_unit Q S fuel u) ++ heaps rs, x_errs (exec_unit Q S fuel u) ++ errs rs).
-  Proof.
-    intros u r [d Hd]. destruct d as [|d]; [discriminate|]. simpl in Hd.
-    destruct (totals (total d) (x_units (exec_unit Q S fuel u))) as [[h e]|] eqn:E; [|discriminate].
-    destruct (totals_spec _ _ _ _ E) as [rs [HF [Hh He]]]. inversion Hd; subst.
-    exists rs. split; [|reflexivity].
-    clear -HF. induction HF; constructor; auto. now exists d.
-  Qed.
+  Proof. intros u r H. inversion H; subst. eauto. Qed.
 
   Lemma take_nth_perm : forall {A} k (l : list A) x r, take_nth k l = Some (x, r) -> Permutation l (x :: r).
   Proof.
